@@ -41,6 +41,12 @@ BREAKING = [
     ("send-timeout-fault-before-limit", SEND, "                    if self.timer.ack.limit_reached() {\n                        self.handle_fault(Condition::PositiveLimitReached)?",
      "                    if self.timer.ack.timeout_occurred() {\n                        self.handle_fault(Condition::PositiveLimitReached)?", {"C17": 1}),
     ("recv-nak-skips-first-gap", RECV, "segments.gaps(0, self.file_size.unwrap_or(segments.end_or_0()))", "segments.gaps(1, self.file_size.unwrap_or(segments.end_or_0()))", {"C08": 1}),
+    ("send-retransmission-moves-cursor", SEND, "                        // restore to original location in the file\n                        let handle = self.get_handle()?;\n                        handle\n                            .seek(SeekFrom::Start(current_pos))\n                            .map_err(FileStoreError::IO)?;\n                        Ok(())",
+     "                        let _ = current_pos;\n                        Ok(())", {"C07": 1}),
+    ("send-eof-one-byte-early", SEND, "                    if handle.stream_position().map_err(FileStoreError::IO)?\n                        == handle.metadata().map_err(FileStoreError::IO)?.len()",
+     "                    if handle.stream_position().map_err(FileStoreError::IO)? + 1\n                        >= handle.metadata().map_err(FileStoreError::IO)?.len()", {"C07": 1}),
+    ("send-segment-reads-behind-offset", SEND, "        handle\n            .seek(SeekFrom::Start(offset))\n            .map_err(FileStoreError::IO)?;\n\n        // use take",
+     "        handle\n            .seek(SeekFrom::Start(offset.saturating_sub(1)))\n            .map_err(FileStoreError::IO)?;\n\n        // use take", {"C07": 1}),
     ("crc-poly-typo", PDU, "let poly = 0x1021;", "let poly = 0x1012;", {"C15": 1}),
     ("crc-over-reencoding", PDU, "                    let mut temp = received_pdu.header.clone().encode();\n                    temp.extend_from_slice(remaining_msg.as_slice());\n                    temp",
      "                    let mut temp = received_pdu.clone().encode();\n                    temp.truncate(temp.len() - 2);\n                    temp", {"C15": 1}),
@@ -57,6 +63,7 @@ HARMLESS = [
      "    pub fn shutdown(&mut self) {\n        debug!(\"Transaction {0} shutting down.\", self.id());\n        debug!(\"bye\");", {"C17": 0, "C19": 0, "C04": 0}),
     ("send-reorder-independent", SEND, "        self.timer.ack.pause();\n        self.timer.inactivity.pause();\n        self.state = TransactionState::Suspended;",
      "        self.timer.inactivity.pause();\n        self.timer.ack.pause();\n        self.state = TransactionState::Suspended;", {"C19": 0, "C17": 0}),
+    ("send-first-pass-explicit-offset", SEND, "                        self.send_file_segment(None, None, permit, true)?", "                        self.send_file_segment(Some(self.get_progress()), None, permit, true)?", {"C07": 0}),
     ("timer-comment", TIM, "        let now = Instant::now();\n        while", "        let now = Instant::now();\n        // count the expirations\n        while", {"C17": 0}),
 ]
 
@@ -95,7 +102,7 @@ def main(only=None):
                 try:
                     for prop, want in expect.items():
                         rc, tail = run_check(prop, SCRATCH)
-                        ok = (rc == want) or (group == "breaking" and want == 0 and rc in (0, 2))
+                        ok = (rc == want) or (group == "breaking" and want == 0 and rc in (0, 2)) or (group == "breaking" and want == 2 and rc in (1, 2))
                         print("SELFTEST %-40s %-4s expected rc=%d got rc=%d %s %s" % (name, prop, want, rc, "ok" if ok else "MISMATCH", " | ".join(tail)[:160]))
                         bad += 0 if ok else 1
                 finally:
